@@ -250,7 +250,7 @@ func parseModel(out string) map[string]string {
 			first = inner[:1]
 		}
 		rest := inner[len(first):]
-		m[strings.Join(first, " ")] = joinSexpr(rest)
+		m[joinSexpr(first)] = joinSexpr(rest)
 		pos = end + 1
 	}
 	return m
